@@ -139,3 +139,36 @@ impl Environment for RecEnv {
     fn variable_exists(&self, name: &str) -> bool { self.inner.variable_exists(name) }
     fn function_exists(&self, name: &str, arity: usize) -> FunctionResult { self.inner.function_exists(name, arity) }
 }
+
+/// A host environment that is CASE-SENSITIVE (the `Environment` trait does not prescribe case folding: that is `StaticEnvironment`'s choice): names are
+/// compared exactly, the latest registration of a spelling wins.  Same event log as `RecEnv`.
+pub struct CsEnv { vars: Vec<(String, Rc<V>)>, fns: Vec<(FnDesc, fn(&[V]) -> NativeResult)>, pub log: RefCell<Vec<String>> }
+impl CsEnv {
+    pub fn new(d: &EnvDesc) -> Option<Self> {
+        let mut fns = vec![]; for f in &d.fns { fns.push((f.clone(), behaviour(&f.beh)?)); }
+        Some(CsEnv { vars: d.vars.iter().map(|(n, v)| (n.clone(), Rc::new(v.clone()))).collect(), fns, log: RefCell::new(vec![]) })
+    }
+    pub fn trace(&self) -> String { let l = self.log.borrow(); if l.is_empty() { "-".into() } else { l.join(" , ") } }
+}
+impl Environment for CsEnv {
+    fn variable(&self, name: &str) -> Option<Rc<V>> {
+        self.log.borrow_mut().push(format!("lk {}", hex(name)));
+        self.vars.iter().rev().find(|(n, _)| n == name).map(|(_, v)| v.clone())
+    }
+    fn call(&self, name: &str, params: &[V]) -> NativeResult {
+        let mut p = vec![format!("cl {} {}", hex(name), params.len())]; p.extend(params.iter().map(show));
+        self.log.borrow_mut().push(p.join(" "));
+        match self.fns.iter().rev().find(|(f, _)| f.name == name) { Some((_, func)) => func(params), None => Err(NativeError::FunctionNotFound(name.to_string())) }
+    }
+    fn variable_exists(&self, name: &str) -> bool { self.vars.iter().any(|(n, _)| n == name) }
+    fn function_exists(&self, name: &str, k: usize) -> FunctionResult {
+        match self.fns.iter().rev().find(|(f, _)| f.name == name) {
+            None => FunctionResult::NotFound,
+            Some((f, _)) => match f.kind {
+                'P' => if k < f.req || k > f.req + f.opt { FunctionResult::WrongArity { min: f.req, max: f.req + f.opt } } else { FunctionResult::Exists { pure: f.pure } },
+                'V' => if k > 0 { FunctionResult::Exists { pure: f.pure } } else { FunctionResult::WrongArity { min: 1, max: 99 } },
+                _ => if k == 0 { FunctionResult::Exists { pure: f.pure } } else { FunctionResult::WrongArity { min: 0, max: 0 } },
+            },
+        }
+    }
+}
